@@ -223,6 +223,23 @@ pub fn run_case(lines: &[Vec<String>], o: &mut Out) {
             plain!(91, cls, g, dijkstra::get_all_shortest_paths_involving(&*g, x, true));
         }
     }
+    // every option combination of the shortest-path entry points (the options select different code paths)
+    if let (Some(f), Some(l)) = (names.first().cloned(), names.last().cloned()) {
+        for w in [false, true] {
+            for fo in [false, true] {
+                for wp in [false, true] {
+                    for tg in [None, Some(l)] {
+                        for co in [None, Some(2.0)] {
+                            res!(94, 1, g, dijkstra::single_source(&*g, w, f, tg, co, fo, wp));
+                            res!(95, 1, g, dijkstra::multi_source(&*g, w, vec![f, l], tg, co, fo, wp));
+                        }
+                    }
+                    res!(96, 1, g, dijkstra::all_pairs(&*g, w, Some(l), Some(2.0), fo, wp));
+                    res!(96, 1, g, dijkstra::all_pairs(&*g, w, None, Some(2.0), fo, wp));
+                }
+            }
+        }
+    }
     opt!(92, 1, g, g.get_node_by_index(&0));
     opt!(93, 2, g, g.get_node_by_index(&1000));
     o.obs(2000, &rows, &[]);
